@@ -89,7 +89,7 @@ def contention_case(draw, d):
     kind = draw(st.sampled_from(['last-units', 'last-units', 'vs-inventory',
                                  'move-vs-put', 'traitagg-vs-alloc',
                                  'reshape-vs-alloc', 'same-consumer',
-                                 'vs-delete']))
+                                 'vs-delete', 'double-submit']))
     v = versions_cg(draw)
     free_cons = [c for c in gen.CONS if c not in d.consumers]
     held = sorted(d.consumers)
@@ -108,6 +108,17 @@ def contention_case(draw, d):
         b = [a for a in ok if 2 * a > int(gen.free_for(d, rp, rc, (c,)))]
         return draw(st.sampled_from(b or ok or [1]))
 
+    if kind == 'double-submit':
+        # one generation-guarded provider update submitted twice (and
+        # sometimes an allocation write on the same provider)
+        import copy
+        g = d.providers[rp]['generation']
+        reqs['A'] = provider_write(draw, d, rp, v, g)
+        reqs['B'] = copy.deepcopy(reqs['A'])
+        if draw(st.integers(0, 2)) == 0:
+            c = new_or_held(0)
+            reqs['C'] = put_alloc(d, c, {(rp, rc): amount_for(c)}, v)
+        return reqs
     if kind == 'last-units':
         n = draw(st.sampled_from([2, 2, 3]))
         used = set()
